@@ -40,7 +40,15 @@ def _impl_safe(args):
     try:
         return {"ok": impl(c)}
     except Exception as e:  # noqa: BLE001
-        return {"exc": f"{type(e).__name__}: {e}", "tb": traceback.format_exc()[-1500:]}
+        # where was it raised?  An AttributeError/TypeError/... whose innermost frame is harness code means an
+        # observer of this harness no longer fits the source (renamed private attribute, changed signature):
+        # that is a broken correspondence, not a failing input of the property.
+        frames = traceback.extract_tb(e.__traceback__)
+        inner = frames[-1].filename if frames else ""
+        in_harness = "/verif/harness/" in inner or inner.startswith("<")
+        observer = in_harness and isinstance(e, (AttributeError, TypeError, KeyError, ImportError, NameError, IndexError)) \
+            and not isinstance(e, AssertionError)
+        return {"exc": f"{type(e).__name__}: {e}", "tb": traceback.format_exc()[-1500:], "observer_broken": observer}
 
 
 def run_impl(fam: Family, cases: list[dict]) -> list[dict]:
@@ -128,7 +136,12 @@ def run_family(ctx, fam: Family, n: int, search_factor: int = 6) -> dict:
     for i, (c, r) in enumerate(zip(cases, results)):
         if "exc" in r:
             stats["impl_exceptions"] += 1
-            ctx.violation("oracle", dict(family=fam.name, case=c, failure=dict(clause="implementation raised", error=r["exc"], tb=r["tb"])))
+            if r.get("observer_broken"):
+                ctx.violation("correspondence", dict(family=fam.name, broken="the harness can no longer observe the implementation "
+                                                     "(an attribute or signature it reads has changed)", case=c, error=r["exc"], tb=r["tb"]),
+                              no_failing_input=True)
+            else:
+                ctx.violation("oracle", dict(family=fam.name, case=c, failure=dict(clause="implementation raised", error=r["exc"], tb=r["tb"])))
             continue
         o = r["ok"]
         try:
@@ -170,6 +183,8 @@ def run_family(ctx, fam: Family, n: int, search_factor: int = 6) -> dict:
         extra = [fam.gen(ctx.rng) for _ in range(n * search_factor)]
         for c, r in zip(extra, run_impl(fam, extra)):
             if "exc" in r:
+                if r.get("observer_broken"):
+                    continue
                 ctx.violation("oracle", dict(family=fam.name, case=c, failure=dict(clause="implementation raised", error=r["exc"])))
                 found = True
                 break
@@ -195,12 +210,16 @@ def run_oracle_only(ctx, fam, n):
     cases = load_corpus(ctx.pid, fam.name) + [fam.gen(ctx.rng) for _ in range(n)]
     fails, nontrivial = 0, 0
     for c in cases:
-        try:
-            o = fam.impl(c)
-        except Exception as e:  # noqa: BLE001
-            ctx.violation("oracle", dict(family=fam.name, case=c, failure=dict(clause="implementation raised", error=f"{type(e).__name__}: {e}"[:300])))
+        r = _impl_safe((fam.impl, c))
+        if "exc" in r:
+            if r.get("observer_broken"):
+                ctx.violation("correspondence", dict(family=fam.name, broken="the harness can no longer observe the implementation", case=c,
+                                                     error=r["exc"], tb=r["tb"]), no_failing_input=True)
+            else:
+                ctx.violation("oracle", dict(family=fam.name, case=c, failure=dict(clause="implementation raised", error=r["exc"], tb=r["tb"])))
             fails += 1
             continue
+        o = r["ok"]
         nontrivial += bool(fam.nontrivial(c, o))
         fs = fam.oracle(c, o)
         if fs:
